@@ -61,4 +61,16 @@ theorem C09_connectMu_held_to_registration :
     Mqtt.Generated.takeoverStoppedMade = true ∧ heldOver connectProgram = true :=
   ⟨by decide, by decide, Mqtt.Proofs.Takeover.connect_held_over⟩
 
+/-- **`Server.Close` of the source is the model's `srvClose`.**  The source's `Close` is, statement by
+statement, `closeProgram` (regenerated fact `takeoverCloseSeq`): a copy of `svcs` under `Server.mu`, the
+loop that closes every outgoing ring, then the loop that calls `stop()` on every connection of that copy,
+in its order - the order of registration.  The model performs those `stop()`s as `stopAll` over the live
+connections in table order, each a non-graceful end (`C09_server_close_publishes_wills`). -/
+theorem C09_server_close_is_source :
+    Mqtt.Generated.takeoverCloseSeq = closeProgram.map ClOp.code ∧
+    closeProgram.idxOf .closeOuts < closeProgram.idxOf .stops ∧
+    (∀ b : Mqtt.Model.Broker.B, Mqtt.Model.Broker.srvClose b =
+      Mqtt.Model.Broker.stopAll b (Mqtt.Model.Broker.liveIds b)) :=
+  ⟨by decide, by decide, fun _ => rfl⟩
+
 end Mqtt.Properties.C09
